@@ -237,6 +237,7 @@ var c10Decls = []declFrag{
 	dirty(`color: red: blue`), dirty(`color: \`), dirty(`color: \red`), dirty(`color: re\d`), dirty(`c\6flor: red`), dirty(`color: red\9`),
 	dirty(`}position: fixed`), dirty(`{}color: red`), dirty(`/**/ }`), dirty(` `), dirty(`color: red\ `), dirty("color: red\\\t"),
 	dirty("color: \\72  ed"), dirty("color: r\\65\t\td"), dirty("color: \\72\n\ned"),
+	dirty(`font-family: x\\\ `), dirty(`color: \ `), dirty(`color: red\21 important`), dirty(`color: red ! important`), dirty(`color: red !important !important`),
 	dirty(`font-family: \110000 x`), dirty(`font-family: \0 `), dirty(`color:red`), dirty(`color : red`), dirty(`color: "red"`),
 }
 
